@@ -322,3 +322,41 @@ def git_head(path):
 def repo_dirty():
     rc, o, _ = sh(["git", "-C", REPO, "status", "--porcelain"])
     return [l for l in o.splitlines() if l.strip()]
+
+
+# ----------------------------------------------------------------------------------------------
+# coqchk (thorough tier): independent re-check of the compiled property file and everything it depends on
+# ----------------------------------------------------------------------------------------------
+
+def coqchk(pid, timeout=3600):
+    """Runs `coqchk -silent -o` on Texel.Properties.<pid>; cached by the hash of all .v files it depends on."""
+    rel = "theories/Properties/%s.v" % pid
+    deps = coq_deps(rel)
+    h = hashlib.sha1()
+    for d in deps:
+        try:
+            h.update(open(os.path.join(COQ, d), "rb").read())
+        except OSError:
+            pass
+    stamp = os.path.join(LOGDIR, "coqchk_%s_%s.json" % (pid, h.hexdigest()[:16]))
+    if os.path.exists(stamp):
+        return json.load(open(stamp))
+    rc, o, dt = sh(["coqchk", "-silent", "-o", "-Q", "theories", "Texel", "-Q", "gen", "Texel.Gen", "Texel.Properties.%s" % pid],
+                   cwd=COQ, timeout=timeout)
+    axioms = []
+    lines = o.splitlines()
+    for k, line in enumerate(lines):
+        if line.strip().startswith("* Axioms:"):
+            first = line.split("Axioms:", 1)[1].strip()
+            if first and first != "<none>":
+                axioms.append(first)
+            for l2 in lines[k + 1:]:
+                if l2.strip().startswith("* "):
+                    break
+                if l2.strip():
+                    axioms.append(l2.strip())
+            break
+    res = {"rc": rc, "wall_s": round(dt, 1), "axioms": axioms[:50], "tail": o[-1500:]}
+    if rc == 0:
+        write_json(stamp, res)
+    return res
